@@ -26,6 +26,16 @@ def stream(family, tier):
                 for p in decs:
                     yield p
             k += 1
+    elif family in ("F1.1one", "F1.2one"):
+        # facts with boundary probabilities: a is certain (1.0), b is 0.5; F1.2one adds no evidence
+        n = 1 if family == "F1.1one" else 2
+        for fs in ([("1.0", "a"), ("0.5", "b")], [("0.0", "a"), ("0.5", "b")]):
+            for cl, heads in G.f1_programs(n, facts=fs):
+                decs = list(G.decorate(cl, heads, facts=("b",), k=k))
+                yield decs[0]
+                if family == "F1.1one":
+                    yield decs[1]
+                k += 1
     elif family == "F1.2q":  # F1.2 without evidence decorations
         for cl, heads in G.f1_programs(2):
             yield next(iter(G.decorate(cl, heads, k=k)))
